@@ -94,6 +94,22 @@ func generate(ld *Loaded, cs *Contracts, fc *FuncContract) (res *FuncResult) {
 	for _, cl := range fc.Requires {
 		env := ex.specEnv(top, st, ex.entry)
 		cx.assume(env.evalBool(cl.Expr))
+		if clauseHasQuant(ex, cl.Expr) {
+			cl := cl
+			ex.qhyps = append(ex.qhyps, qhyp{guard: tTrue, inst: func(sk map[string]SVal) (Term, bool) {
+				henv := ex.specEnv(nil, ex.entry, ex.entry)
+				for n, v := range ex.paramEntry {
+					henv.vars[n] = v
+				}
+				nUnsup := len(ex.cx.unsupported)
+				t := henv.evalInstance(cl.Expr, sk)
+				if len(ex.cx.unsupported) != nUnsup {
+					ex.cx.unsupported = ex.cx.unsupported[:nUnsup]
+					return Term{}, false
+				}
+				return t, true
+			}})
+		}
 	}
 	for _, cl := range fc.Assumes {
 		env := ex.specEnv(top, st, ex.entry)
@@ -234,7 +250,7 @@ func (ex *Exec) frameCheck(fin *State, kind string, fn *ssa.Function) {
 				conds = append(conds, not(eq(r, a)))
 			}
 			for _, b := range elemBases[name] {
-				conds = append(conds, not(and(app(SBool, "(_ is elem)", r), eq(app(SRef, "ebase", r), b))))
+				conds = append(conds, not(elemMatch(r, b)))
 			}
 			// objects allocated during the call may differ
 			conds = append(conds, ex.refOldStrict(r, ap0))
@@ -277,10 +293,10 @@ func (ex *Exec) lvalueTargets(env *SpecEnv, m Expr, allowed, elemBases map[strin
 			return
 		}
 		if stt, ok := et.Underlying().(*types.Struct); ok {
-			for i := 0; i < stt.NumFields(); i++ {
-				n := ex.fieldHeapName(stt.Field(i))
-				elemBases[n] = append(elemBases[n], base)
-			}
+			ex.leafFields(stt, 0, func(f *types.Var, depth int) {
+				n := ex.fieldHeapName(f)
+				elemBases[n] = append(elemBases[n], Term{base.S, fmt.Sprintf("Ref#%d", depth)})
+			})
 		}
 	}
 	switch x := m.(type) {
@@ -354,4 +370,78 @@ func (ex *Exec) lvalueTargets(env *SpecEnv, m Expr, allowed, elemBases map[strin
 			}
 		}
 	}
+}
+
+// leafFields enumerates the scalar fields of a struct type, descending into
+// nested structs (depth = number of enclosing struct fields).
+func (ex *Exec) leafFields(stt *types.Struct, depth int, f func(fld *types.Var, depth int)) {
+	for i := 0; i < stt.NumFields(); i++ {
+		fl := stt.Field(i)
+		if sub, ok := fl.Type().Underlying().(*types.Struct); ok {
+			ex.leafFields(sub, depth+1, f)
+			continue
+		}
+		if _, ok := ex.cx.sortOf(fl.Type()); ok {
+			f(fl, depth)
+		}
+	}
+}
+
+// elemMatch: r is the address of a (possibly nested) field cell of an element
+// of the array object b (b.Sort carries the nesting depth as "Ref#d").
+func elemMatch(r, b Term) Term {
+	depth := 0
+	if strings.HasPrefix(b.Sort, "Ref#") {
+		fmt.Sscanf(b.Sort, "Ref#%d", &depth)
+	}
+	var cs []Term
+	cur := r
+	for d := 0; d < depth; d++ {
+		cs = append(cs, app(SBool, "(_ is fld)", cur))
+		cur = app(SRef, "fbase", cur)
+	}
+	cs = append(cs, app(SBool, "(_ is elem)", cur), eq(app(SRef, "ebase", cur), Term{b.S, SRef}))
+	return and(cs...)
+}
+
+// clauseHasQuant: the clause contains a quantifier, directly or through a
+// spec function it calls.
+func clauseHasQuant(ex *Exec, e Expr) bool {
+	seen := map[string]bool{}
+	var rec func(e Expr) bool
+	rec = func(e Expr) bool {
+		switch x := e.(type) {
+		case *EQuant:
+			return true
+		case *EBin:
+			return rec(x.L) || rec(x.R)
+		case *EUn:
+			return rec(x.X)
+		case *ECond:
+			return rec(x.C) || rec(x.A) || rec(x.B)
+		case *EOld:
+			return rec(x.X)
+		case *ECall:
+			name := ""
+			switch f := x.Fn.(type) {
+			case *EIdent:
+				name = f.Name
+			case *ESel:
+				name = f.Name
+			}
+			if sf, ok := ex.cs.Specs[name]; ok && !seen[name] {
+				seen[name] = true
+				if rec(sf.Body) {
+					return true
+				}
+			}
+			for _, a := range x.Args {
+				if rec(a) {
+					return true
+				}
+			}
+		}
+		return false
+	}
+	return rec(e)
 }
